@@ -28,7 +28,7 @@
    * the undefined-flag aliasing of variable slots >= 64 found by this check
      was repaired by commit 93e33409 (regression stream "deep_vars"). *)
 From Coq Require Import List ZArith Bool Lia.
-From YV Require Import Cond.Syntax Cond.Sem.
+From YV Require Import Cond.Syntax Cond.Sem Gen.FoldFacts.
 Import ListNotations.
 Local Open Scope Z_scope.
 
@@ -71,7 +71,8 @@ Fixpoint sval (op : arith) (e : expr) : option Z :=
   | EArith op' a (EInt y) =>
       if arith_eqb op' op then
         match sval op a with
-        | Some x => let r := ap op x y in if in_i64 r then Some r else None
+        | Some x => let r := ap op x y in
+                    if in_i64 r then Some r else if FoldFacts.nary_fold_checked then None else Some (wrap64 r)
         | None => None
         end
       else None
@@ -80,13 +81,22 @@ Fixpoint sval (op : arith) (e : expr) : option Z :=
 Definition nary (op : arith) (e : expr) : expr :=
   match sval op e with Some r => EInt r | None => e end.
 
-(* shl / shr (non-negative constant count) and the bitwise operators: binary *)
+(* shl / shr (non-negative constant count) and the bitwise operators: binary.
+   The shape of the two shift folds is read from ir/mod.rs by
+   translate/gen_fold.py (Gen/FoldFacts.v): limit, value beyond it, `<<` / `>>`
+   on i64 values below it. *)
+Definition fold_shift (op : arith) (x y : Z) : Z :=
+  match op with
+  | Shl => if FoldFacts.shl_fold_limit <=? y then FoldFacts.shl_fold_over else wrap64 (Z.shiftl x y)
+  | _ => if FoldFacts.shr_fold_limit <=? y then FoldFacts.shr_fold_over
+         else if FoldFacts.shr_fold_arithmetic then Z.shiftr x y else Z.shiftr (x mod two64) y
+  end.
 Definition fold_bin (op : arith) (a b : expr) : expr :=
   match a, b with
   | EInt x, EInt y =>
       match op with
       | Shl | Shr =>
-          if 0 <=? y then match arith_int op x y with VInt r => EInt r | _ => EArith op a b end
+          if negb FoldFacts.shift_fold_needs_nonneg_count || (0 <=? y) then EInt (fold_shift op x y)
           else EArith op a b
       | BAnd | BOr | BXor => match arith_int op x y with VInt r => EInt r | _ => EArith op a b end
       | _ => EArith op a b
